@@ -373,11 +373,16 @@ package rules
 //@   modifies Tree.*, elems(*), map(*)
 //@   ensures r.index == old(r.index) && r.knownRules == old(r.knownRules)
 
+// C07 "no interleaving ... produces a deadlock": the locks are not re-entrant, so each operation is
+// entered with no write lock taken by the calling control flow still held (the ghost logs follow one
+// control flow: mlock.n - munlock.n is the number of write locks it holds) - an operation calling
+// another one of the repository from inside its critical section violates the callee's precondition
 // AddRuleSet: writers are serialised by knownRulesMutex from before the index is copied until the
 // return; the new rules go into the copy only; on failure nothing is published and the bookkeeping
 // is unchanged; on success the copy becomes the index, under the write lock of rulesTreeMutex.
 //@ func (*repository).AddRuleSet
 //@   props C06 C07
+//@   requires mlock.n == munlock.n
 //@   ensures ret0 != nil ==> r.index == old(r.index) && r.knownRules == old(r.knownRules)
 //@   ensures ret0 == nil ==> tclone.n == old(tclone.n) + 1 && r.index == tclone.ret0[old(tclone.n)]
 //@   ensures mlock.n == munlock.n - old(munlock.n) + old(mlock.n)
@@ -389,6 +394,7 @@ package rules
 // UpdateRuleSet / DeleteRuleSet: the same discipline as AddRuleSet
 //@ func (*repository).UpdateRuleSet
 //@   props C06 C07
+//@   requires mlock.n == munlock.n
 //@   ensures ret0 != nil ==> r.index == old(r.index) && r.knownRules == old(r.knownRules)
 //@   ensures ret0 == nil ==> tclone.n == old(tclone.n) + 1 && r.index == tclone.ret0[old(tclone.n)]
 //@   assert at call Clone#1@1f36d663.1: callarg0 == r.index && mlock.n == old(mlock.n) + 1 && mlock.arg0[old(mlock.n)] == &r.knownRulesMutex && munlock.n == old(munlock.n)
@@ -401,6 +407,7 @@ package rules
 
 //@ func (*repository).DeleteRuleSet
 //@   props C06 C07
+//@   requires mlock.n == munlock.n
 //@   ensures ret0 != nil ==> r.index == old(r.index) && r.knownRules == old(r.knownRules)
 //@   ensures ret0 == nil ==> tclone.n == old(tclone.n) + 1 && r.index == tclone.ret0[old(tclone.n)]
 //@   assert at call Clone#1@1f36d663.1: callarg0 == r.index && mlock.n == old(mlock.n) + 1 && mlock.arg0[old(mlock.n)] == &r.knownRulesMutex && munlock.n == old(munlock.n)
@@ -411,6 +418,7 @@ package rules
 // lookups read the published index under the read lock, which is released on every way out
 //@ func (*repository).FindRule
 //@   props C07 C02 C08
+//@   requires mlock.n == munlock.n
 //@   ensures tfind.n == old(tfind.n) + 1 && req.n > old(req.n)
 //@   ensures tfind.ret1[old(tfind.n)] != nil && r.dr != nil ==> ret1 == nil && ret0 == iface(r.dr)
 //@   ensures tfind.ret1[old(tfind.n)] != nil && r.dr == nil ==> ret0 == nil && ret1 != nil && Is(ret1, heimdall.ErrNoRuleFound)
